@@ -42,6 +42,13 @@ func vxH_C16_close() {
 			c.m.Unlock()
 		}
 	}
+	// optionally the top section is already full when the writers arrive, so
+	// that both of them block on back-pressure at the same time
+	if vxChoose(2) == 1 {
+		pre := &segment{}
+		pre.mutate(OperationSet, []byte{'p'}, []byte{'v'})
+		c.stackDirtyTop = &segmentStack{options: c.options, refs: 1, a: []Segment{pre}}
+	}
 	c.Start()
 	var wg sync.WaitGroup
 	errs := make([]error, 2)
@@ -66,6 +73,12 @@ func vxH_C16_close() {
 			defer wg.Done()
 			c.NotifyMerger("go", true)
 		}()
+	}
+	if vxChoose(2) == 1 {
+		// a read right before Close leaves a cached snapshot behind
+		if sn, serr := c.Snapshot(); serr == nil {
+			sn.Close()
+		}
 	}
 	cerr := c.Close()
 	vxAssert("close-ok", cerr == nil)
